@@ -601,3 +601,24 @@ func (core JApiCore) addJsonRpcParams(d *directive.Directive) *jerr.JApiError {
 func (core JApiCore) addJsonRpcResult(d *directive.Directive) *jerr.JApiError {
 	return core.addJsonRpcSchema(d, core.catalog.AddJsonRpcResult)
 }
+
+// addTags checks the Tags directive itself. Its tags are given to the
+// interactions when they are added, but a Tags directive of a URL isn't looked
+// at when every method of the URL has its own Tags.
+func (core JApiCore) addTags(d *directive.Directive) *jerr.JApiError {
+	if d.Annotation != "" {
+		return d.KeywordError(jerr.AnnotationIsForbiddenForTheDirective)
+	}
+
+	if !d.HasUnnamedParameter() {
+		return d.KeywordError(jerr.RequiredParameterNotSpecified)
+	}
+
+	for _, name := range d.UnnamedParameter() {
+		if !core.catalog.Tags.Has(catalog.TagName(name)) {
+			return d.KeywordError(fmt.Sprintf("%s %q", jerr.TagNotFound, name))
+		}
+	}
+
+	return nil
+}
